@@ -159,3 +159,9 @@ def run(ctx):
     c = rr.calls_to(lambda f: M.callee_str(f) == RI)
     ok = len(c) == 1 and Tr.operand(c[0][1]["args"][E.params["size_limit"] - 1]) == ("param", 3, rr.local_name(3))
     ctx.ob("R03.5", "RawCommunicator::read.passes-limit", ok, rr.loc(0), "the limit reaches read_into unchanged")
+
+
+def run_thorough(ctx):
+    # the cfg(windows) sibling implementation, analysed on the windows-msvc build
+    import winrules
+    winrules.c03_leftover(ctx)
